@@ -16,6 +16,7 @@ def sh(cmd, **kw):
 def main():
     ap = argparse.ArgumentParser()
     ap.add_argument("--lanes", type=int, default=3); ap.add_argument("--only", default=""); ap.add_argument("--tier", default="quick")
+    ap.add_argument("--all-checks", action="store_true", help="run every check recorded in caught_by (default: stop at the first one that catches the change, the seed's own property first)")
     a = ap.parse_args()
     seeds = sorted(d for d in os.listdir(os.path.join(VERIF, "seeded")) if os.path.exists(os.path.join(VERIF, "seeded", d, "meta.json")))
     if a.only: seeds = [s for s in seeds if s in a.only.split(",")]
@@ -41,7 +42,9 @@ def main():
                 if r.returncode != 0:
                     results[s] = {"error": "patch does not apply: " + r.stderr[-300:]}; print(s, "PATCH DOES NOT APPLY", flush=True); continue
                 res = {}
-                for prop in meta["caught_by"]:
+                props = [p for p in [meta["property"]] if p in meta["caught_by"]] + [p for p in meta["caught_by"] if p != meta["property"]]
+                for prop in props:
+                    if not a.all_checks and any(x["rc"] == 1 for x in res.values()): break
                     t0 = time.time()
                     r = subprocess.run(["./check", prop, "--tier", a.tier], cwd=vd, env=env, capture_output=True, text=True)
                     nv = sum(1 for ln in r.stdout.splitlines() if ln.startswith("VIOLATION"))
